@@ -1,38 +1,50 @@
 """Check orchestration: build, proof gate, correspondence streams, oracles, decision, evidence."""
 import hashlib, json, os, sys, time
 from concurrent.futures import ThreadPoolExecutor
-from . import gen_pure, gen_seq, oracles, prover
-from .common import (VERIF, CACHE, Rng, build_harness, BuildError, run_impl_resilient, run_model, unhx)
+from . import gen_conc, gen_pure, gen_push, gen_seq, oracles, prover
+from .common import (VERIF, CACHE, DVH, ENV, Rng, build_harness, BuildError, run_impl_resilient, run_impl_conc, run_model, unhx)
+import subprocess
 
 ALL_SEQ_OPS = {"ctopic", "gtopic", "dtopic", "ltopics", "ltsubs", "csub", "gsub", "lsubs", "dsub", "pub", "pull", "ack", "mod",
                "sopen", "ssend", "sread", "sclose", "sdrop", "stats", "registry", "adv", "clock", "wtopics", "wsubs", "wtsubs", "unimpl", "new"}
 
 # property -> configuration.  seq: (profile, quick cases, thorough cases, max history length)
 PROPS = {
-    "C01": dict(module="Deltio.Props.C01", seq=[("general", 150, 6000, 40), ("data", 150, 6000, 50)], pure=[],
+    "C01": dict(module="Deltio.Props.C01", conc=[("mix", 120, 5000), ("cancel", 60, 2000)], trace_kinds={"post", "publish", "pull", "ack", "modify", "expire"}, seq=[("general", 150, 6000, 40), ("data", 150, 6000, 50)], pure=[],
                 relevant={"pub", "pull", "sread", "stats", "sopen"}),
-    "C02": dict(module="Deltio.Props.C02", seq=[("data", 250, 10000, 50)], pure=["tracker", "ackids"],
+    "C02": dict(module="Deltio.Props.C02", conc=[("mix", 120, 5000)], trace_kinds={"ack", "pull"}, seq=[("data", 250, 10000, 50)], pure=["tracker", "ackids"],
                 relevant={"ack", "ssend", "pull", "sread", "stats"}),
-    "C03": dict(module="Deltio.Props.C03", seq=[("data", 250, 10000, 50), ("batches", 40, 1500, 40)], pure=["tracker"],
+    "C03": dict(module="Deltio.Props.C03", conc=[("mix", 120, 5000)], trace_kinds={"pull", "expire", "modify"}, seq=[("data", 250, 10000, 50), ("batches", 40, 1500, 40)], pure=["tracker"],
                 relevant={"pull", "sread"}),
-    "C04": dict(module="Deltio.Props.C04", seq=[("deadlines", 300, 12000, 50)], pure=["rounds", "tracker"],
+    "C04": dict(module="Deltio.Props.C04", conc=[("mix", 60, 3000)], trace_kinds={"pull", "expire"}, seq=[("deadlines", 300, 12000, 50)], pure=["rounds", "tracker"],
                 relevant={"pull", "sread", "stats", "adv", "clock", "csub"}),
-    "C05": dict(module="Deltio.Props.C05", seq=[("deadlines", 300, 12000, 50)], pure=["ext", "tracker"],
+    "C05": dict(module="Deltio.Props.C05", conc=[("mix", 60, 3000)], trace_kinds={"modify"}, seq=[("deadlines", 300, 12000, 50)], pure=["ext", "tracker"],
                 relevant={"mod", "ssend", "pull", "sread", "stats"}),
-    "C08": dict(module="Deltio.Props.C08", seq=[("data", 200, 8000, 50), ("general", 100, 4000, 40)], pure=[],
+    "C08": dict(module="Deltio.Props.C08", conc=[("mix", 120, 5000)], trace_kinds={"publish", "post", "pull"}, seq=[("data", 200, 8000, 50), ("general", 100, 4000, 40)], pure=[],
                 relevant={"pub", "pull", "sread"}),
-    "C09": dict(module="Deltio.Props.C09", seq=[("general", 200, 8000, 40), ("data", 100, 4000, 50)], pure=[],
+    "C09": dict(module="Deltio.Props.C09", push=True, conc=[("mix", 60, 3000)], trace_kinds={"publish", "pull"}, seq=[("general", 200, 8000, 40), ("data", 100, 4000, 50)], pure=[],
                 relevant={"pub", "pull", "sread"}),
     "C10": dict(module="Deltio.Props.C10", seq=[("namespace", 300, 12000, 50)], pure=[],
                 relevant={"ctopic", "gtopic", "dtopic", "csub", "gsub", "dsub", "pub", "pull", "ack", "mod", "lsubs", "ltopics", "ltsubs"}),
-    "C11": dict(module="Deltio.Props.C11", seq=[("namespace", 300, 12000, 50), ("general", 100, 4000, 40)], pure=[],
+    "C11": dict(module="Deltio.Props.C11", conc=[("delete", 60, 2000)], trace_kinds={"attach", "remove", "delete", "delete.begin", "delete.end"}, seq=[("namespace", 300, 12000, 50), ("general", 100, 4000, 40)], pure=[],
                 relevant={"dsub", "dtopic", "ltsubs", "wtsubs", "gsub", "lsubs", "wsubs", "stats", "ctopic", "csub", "pub", "pull"}),
     "C13": dict(module="Deltio.Props.C13", seq=[("namespace", 250, 10000, 50)], pure=["tokens"],
                 relevant={"ltopics", "lsubs", "ltsubs", "wtopics", "wsubs", "wtsubs"}),
-    "C15": dict(module="Deltio.Props.C15", seq=[("batches", 80, 3000, 40), ("data", 100, 4000, 50)], pure=[],
+    "C15": dict(module="Deltio.Props.C15", conc=[("mix", 60, 3000), ("wake", 60, 3000)], trace_kinds={"pull"}, seq=[("batches", 80, 3000, 40), ("data", 100, 4000, 50)], pure=[],
                 relevant={"pull", "sread", "sopen"}),
     "C17": dict(module="Deltio.Props.C17", seq=[("malformed", 300, 12000, 50)], pure=["names", "tokens", "ext", "ackids"],
                 relevant=ALL_SEQ_OPS),
+    "C06": dict(module="Deltio.Props.C06", seq=[], pure=[], conc=[("wake", 200, 8000), ("mix", 100, 4000)],
+                relevant={"pull", "probe", "sread", "stats"}, trace_kinds={"pull", "post", "modify", "expire"}),
+    "C07": dict(module="Deltio.Props.C07", seq=[], pure=[], conc=[("burst", 80, 3000), ("delete", 60, 2000), ("cancel", 60, 2000)],
+                relevant=ALL_SEQ_OPS, trace_kinds={"delete.begin", "delete.end", "remove", "publish"}),
+    "C12": dict(module="Deltio.Props.C12", seq=[], pure=[], conc=[("delete", 250, 10000)],
+                relevant={"pull", "sread", "dsub", "ack", "mod", "gsub", "pub"}, trace_kinds={"delete.begin", "delete.end"}),
+    "C14": dict(module="Deltio.Props.C14", seq=[("namespace", 80, 3000, 40)], pure=[], conc=[], push=True,
+                relevant={"registry", "csub", "dsub"}, trace_kinds=set()),
+    "C16": dict(module="Deltio.Props.C16", seq=[], pure=[], conc=[("cancel", 300, 12000)],
+                relevant=ALL_SEQ_OPS, trace_kinds={"attach", "remove", "pull"}),
+    "C19": dict(module="Deltio.Props.C19", seq=[], pure=["flow", "flowq"], conc=[], relevant=set(), trace_kinds=set()),
     "C18": dict(module="Deltio.Props.C18", seq=[("namespace", 60, 2000, 30)], pure=["names"],
                 relevant={"ctopic", "gtopic", "csub", "gsub", "dtopic", "dsub", "pub"}),
 }
@@ -170,6 +182,9 @@ class Check:
             self.samples.append({"stream": name, "op": lines[j], "impl": impl[j] if j < len(impl) else None})
         self.streams_run.append({"stream": "pure/" + name, "cases": len(lines), "disagreements": nd})
 
+    def stream_serves_dummy(self):
+        return None
+
     def stream_serves(self, name):
         # which pure oracle belongs to which property
         return {"names": ("C18", "C17"), "ext": ("C05", "C17"), "tokens": ("C13", "C17"), "rounds": ("C04",)}.get(name, ()).__contains__(self.prop)
@@ -203,6 +218,74 @@ class Check:
             self.samples.append({"stream": "seq/" + profile, "ops": c[:12], "n_ops": len(c)})
         self.streams_run.append({"stream": "seq/" + profile + tag, "cases": len(cases), "disagreements": nd})
 
+    def conc_stream(self, profile, n_cases, rng):
+        """Concurrent scenarios: implementation-side oracles on the call/return history, and
+        validation of the implementation's actor-turn log against the model's turn functions."""
+        cases = gen_conc.cases(rng.fork("conc/" + profile), profile, n_cases)
+        lines = [l for c in cases for l in c]
+        out, sides, trace, crashed = run_impl_conc(lines, self.seed)
+        verdicts, _, _ = run_model("trace", "\n".join(trace) + "\n")
+        nd = 0
+        kinds = self.cfg.get("trace_kinds", set())
+        for tl, v in zip(trace + ["end"], verdicts):
+            if v != "ok":
+                toks = tl.split()
+                kind = toks[3] if len(toks) > 3 else "end"
+                if kind in kinds or (kind == "end" and "post" in kinds):
+                    nd += 1
+                    self.disagree.append(dict(mode="trace", stream="conc/" + profile, ops=[tl], impl=[tl], model=[v], first_diff=0))
+                else:
+                    self.unattributed += 1
+        i = 0
+        for c in cases:
+            n = len(c)
+            self.evaluations += 1
+            self.traces += 1
+            ans, sd = out[i:i + n], sides[i:i + n]
+            i += n
+            for l in c:
+                k = l.split()[0] if l.split() else ""
+                self.hist[k] = self.hist.get(k, 0) + 1
+            if any(a.startswith(("ok", "msgs")) for l, a in zip(c, ans) if l.split() and l.split()[0] in self.cfg["relevant"]):
+                self.distinct.add(case_hash(c + sd))
+            for sig, msg in oracles.run_seq_oracle(self.prop, c, ans, sd, conc=True):
+                self.oracle_fail.append((sig, msg, dict(mode="conc", stream=profile, ops=c, impl=ans, model=[])))
+        if crashed:
+            self.oracle_fail.append(("abort:conc", "the harness process died while running conc/%s" % profile,
+                                     dict(mode="conc", stream=profile, ops=lines[:50], impl=[], model=[])))
+        if len(self.samples) < 6 and cases:
+            self.samples.append({"stream": "conc/" + profile, "ops": cases[-1][:14], "n_ops": len(cases[-1]), "trace_events": len(trace)})
+        self.streams_run.append({"stream": "conc/" + profile, "cases": len(cases), "trace_events": len(trace), "disagreements": nd})
+
+    def push_stream(self, rng):
+        """C14: the real push loop against a scripted HTTP endpoint (real clock)."""
+        table, _, _ = run_model("pure", "\n".join("push.accepts %d" % st for st in range(100, 600)) + "\n")
+        accepts = {100 + i: v == "1" for i, v in enumerate(table)}
+        scen = [gen_push.scenario(rng.fork("push/%d" % i), self.tier) for i in range(1 if self.tier == "quick" else 4)]
+        if self.tier != "quick":
+            scen.append(gen_push.slow_102(rng))
+        nd = 0
+        for lines, meta in scen:
+            p = subprocess.run([DVH, "push", "-"], input="\n".join(lines) + "\n", env=ENV, stdout=subprocess.PIPE,
+                               stderr=subprocess.PIPE, text=True, timeout=600)
+            answers = p.stdout.split("\n")
+            self.evaluations += len(meta["msgs"])
+            self.traces += 1
+            fails, corr = oracles.c14_push(lines, answers, meta, lambda st: accepts.get(st, False))
+            for d in meta["msgs"]:
+                self.distinct.add("push/" + d)
+            for sig, msg in fails:
+                if sig.startswith(self.prop.lower() + ":") or not sig.startswith(("c09:", "c14:")):
+                    self.oracle_fail.append((sig, msg, dict(mode="push", stream="push", ops=lines, impl=answers, model=[])))
+            for c in corr:
+                nd += 1
+                self.disagree.append(dict(mode="push", stream="push", ops=lines[:5], impl=[c], model=["pushAccepts"], first_diff=0))
+            if p.returncode != 0:
+                self.oracle_fail.append(("abort:push", "push harness died: " + p.stderr[-300:], dict(mode="push", stream="push", ops=lines, impl=answers, model=[])))
+        if len(self.samples) < 6:
+            self.samples.append({"stream": "push", "ops": scen[0][0][:12], "messages": len(scen[0][1]["msgs"])})
+        self.streams_run.append({"stream": "push", "cases": len(scen), "disagreements": nd})
+
     def corpus_cases(self, profile):
         d = os.path.join(VERIF, "corpus", self.prop)
         out = []
@@ -231,7 +314,7 @@ class Check:
 
     def shrink(self, sig, rep):
         if rep["mode"] != "seq" or len(rep["ops"]) <= 3:
-            return rep
+            return rep          # concurrent / push scenarios are kept whole (the schedule seed is part of them)
 
         def pred(lines):
             r = run_seq_cases([lines], self.seed)[0]
@@ -247,6 +330,11 @@ class Check:
         for (profile, q, t, ml) in self.cfg["seq"]:
             for extra in range(3):
                 self.seq_stream(profile, q, ml, rng, tag="/search%d" % extra)
+                if len(self.oracle_fail) > before:
+                    return
+        for (profile, q, t) in self.cfg.get("conc", []):
+            for extra in range(3):
+                self.conc_stream(profile, q * 2, rng.fork("search%d" % extra))
                 if len(self.oracle_fail) > before:
                     return
 
@@ -342,6 +430,10 @@ def main_check(prop, tier):
         chk.pure_stream(name, rng)
     for (profile, q, t, ml) in chk.cfg["seq"]:
         chk.seq_stream(profile, q if tier == "quick" else t, ml, rng)
+    for (profile, q, t) in chk.cfg.get("conc", []):
+        chk.conc_stream(profile, q if tier == "quick" else t, rng)
+    if chk.cfg.get("push"):
+        chk.push_stream(rng)
     for extra in chk.cfg.get("extra", []):
         extra(chk, rng)
     return chk.finish(gate)
